@@ -1,7 +1,11 @@
 (* L1 model of /repo/pogs (insert.go, extract.go; fields.go only as the resulting field map)
-   and, independently, of the accessors capnpc-go generates for the same schema fields.
+   and a second model, [gen_getter]/[gen_struct], of reading the same fields through the accessors
+   capnpc-go generates.  [gen_struct]'s walk is deliberately the same as Extract's; the per-field
+   leaf [gen_getter] is written from the templates and pointer.go, and is proved equal to C15's
+   emitted-accessor semantics (coq/Layout: spec_get / run_getter (gen_accessor f)) for scalar, Bool
+   and - as far as C15's token model of pointer slots goes - pointer fields in PogsLayoutBridge.v.
 
-   Representation (own to this group, independent of coq/Layout):
+   Representation (defined here without coq/Layout; related to it by PogsLayoutBridge.to_strukt):
    * a struct is its data section (size in bytes + the bits, bit i = bit (i mod 8) of byte
      (i / 8): a little-endian integer of width w at byte offset o is exactly the bit range
      [8*o, 8*o+w), least significant bit first) and its pointer slots holding ABSTRACT
